@@ -591,8 +591,66 @@ def suite_object(ctx, maxhist, faults, small, backend="idn2", wrap=True, graph=T
         return res
 
 
+def suite_random_histories(ctx, nhist, nsteps, pool=None, wrap=True):
+    """direction B for the object: random legal histories drawn by the driver, validated statefully by Trace_Eav"""
+    pool = pool or (POOL + BIGPOOL)
+    vec = ctx.path("rand-hist.vec")
+    with open(vec, "w") as f:
+        for i, a in enumerate(pool, 1):
+            if 0 in a:
+                continue
+            f.write('"[8,%d,%d%s]"\n' % (i, len(a), "".join(",%d" % x for x in a)))
+        f.write('"[22,%d,%d,%d]"\n' % (ctx.seed % 100000, nhist, nsteps))
+    b = build(ctx, "default", 0)
+    res = replay(ctx, b, vec, "rand-hist", wrap=wrap)
+    crash_violation(ctx, res, ["C06", ctx.prop])
+    tr = os.path.join(res["outdir"], "histtrace.ndjson")
+    n = sum(1 for _ in open(tr))
+    r = vlib.tlc(ctx, "Trace_Eav", "INIT Init\nNEXT Next\nINVARIANT Ok\nINVARIANT ModelOk\nCHECK_DEADLOCK FALSE\n", workers=1, env={"TRACE": tr}, heap="8g")
+    if r["rc"] != 0:
+        if "Invariant ModelOk is violated" in r["tail"]:
+            add_violation(ctx, "C13", "the object model reports a misuse of memory along a recorded history", {"tlc": r["tail"][-1500:]})
+        else:
+            raise Infra("Trace_Eav failed to run: " + r["tail"][-3000:])
+    elif r["distinct"] != n + 1:
+        raise Infra("Trace_Eav consumed %d of %d events" % (r["distinct"] - 1, n))
+    ctx.cov["states"] += r["distinct"]
+    ctx.cov["transitions"] += r["generated"]
+    ctx.cov["trace_events"] += n
+    ctx.cov["traces_validated_against_impl"] += nhist
+    ctx.cov["evaluations"] += n
+    ctx.cov["distinct_nontrivial"] += n
+    import re
+    bad = dict(vlib.bad_lines(r["out"]))
+    if bad:
+        for i, line in enumerate(open(tr), 1):
+            if i in bad:
+                ev = json.loads(line)
+                clauses = re.findall(r'"([a-z ]+)"', bad[i])
+                case = {"event_no": i, "event": {k: (v if not isinstance(v, list) or len(v) < 120 else v[:120]) for k, v in ev.items()},
+                        "text": vlib.bytes_to_text(ev["in"][:120]) if "in" in ev else None, "failed_clauses": clauses}
+                for c in clauses:
+                    for p in {"history": ["C13"], "legal": ["C13"], "policy": ["C08", "C15"], "decision": ["C01"], "message": ["C15"],
+                              "idn": ["C19", "C10"], "setup": ["C15"], "errstr": ["C13", "C15"], "heap": ["C06", "C13"]}.get(c, ["C13"]):
+                        add_violation(ctx, p, "recorded object history rejected by Trace_Eav (clause %s)" % c, case)
+    add_sample(ctx, open(tr).readlines()[min(5, n - 1)].strip()[:300])
+
+
+BIGPOOL = [B(x) for x in (
+    "user@example.com", "user@iana.org", "USER@IANA.ORG", "a.b.c@sub.domain.co.uk", "x@y.museum", "x@y.aero", "x@y.arpa", "x@y.biz", "x@y.an",
+    "x@y.zzzzz", "x@localhost", "x@test", "x@a.test", "x@invalid", "x@y.onion", "x@example.net.", "x@y.com.", "x@[127.0.0.1]", "x@[0.0.0.0]",
+    "x@[IPv6:2001:db8::1]", "x@[2001:db8:1:1:1:1:1:1]", "x@[IPv6:1.2.3.4]", "x@[1.2.3.4]x", "x@[1.2.3", "\"x y\"@y.com", "\"x\\\"y\"@y.com",
+    "\"x\"y@y.com", "x..y@y.com", ".x@y.com", "x.@y.com", "x y@y.com", "x@y z.com", "x@-y.com", "x@y-.com", "x@y..com", "x@.y.com", "x@123.456",
+    "x@y_z.com", "", "@", "x@", "@y.com", "x@@y.com", "x@y@z.com", "\"x@y\"@z.com", "xxxxxxxxxxxxxxxxxxxxxxxxxxxxxxxxxxxxxxxxxxxxxxxxxxxxxxxxxxxxxxxxx@y.com",
+    "xxxxxxxxxxxxxxxxxxxxxxxxxxxxxxxxxxxxxxxxxxxxxxxxxxxxxxxxxxxxxxxx@y.com", "\u0438\u0432\u0430\u043d@\u043f\u043e\u0447\u0442\u0430.\u0440\u0444",
+    "x@\u4f8b\u3048.\u30c6\u30b9\u30c8", "x@xn--p1ai", "x@y.xn--p1ai", "x@xn--a.com", "x@\u2615.de", "\u00e9.\u00e9@y.com", "x#y@y.com", "x{y}@y.com",
+    "x@y.COM", "x@Example.Com", "x@a.b.c.d.e.f.g.h.ru", "x@1.2.3.ru", "\"\\\u00e9\"@y.com", "x@y.c", "\"\r\n x\"@y.com", "\"x\ty\"@y.com")]
+BIGPOOL += [list(b"x\xff@y.com"), list(b"x@y\xff.com"), list(b"\xc3@y.com"), list(b"x\x01y@y.com"), list(b"\"x\x01y\"@y.com"), list(b"\"x\x7f\"@y.org")]
+
+
 def c13(ctx):
     suite_object(ctx, 6 if ctx.quick() else 7, faults=False, small=False)
+    suite_random_histories(ctx, 20 if ctx.quick() else 400, 200)
     return finish(ctx, "model_checking",
                   "TLC explores the whole reachable state graph of the eav_t machine (all histories of every length over the pool and "
                   "user values) checking history independence (action property), dispatch = confirmed mode, heap balance, no read of an "
